@@ -224,6 +224,9 @@ class Sweep:
         if 'optional' in ops:
             from contracts import b_edit_views
             b_edit_views.optional_steps(self, root, quick, rnd)
+        if 'pars' in ops:
+            from contracts import b_edit_ext
+            b_edit_ext.pars_steps(self, paths, quick, rnd)
         if 'badopts' in ops:
             from contracts import b_edit_ext
             b_edit_ext.badopt_steps(self, paths, quick, rnd)
